@@ -201,6 +201,23 @@ let display_step clamped fstep fsize =
        if Z.ltb fsize s then fsize else s
   else fstep
 
+type tick =
+| TkNum of coq_Z
+| TkName of coq_N list
+| TkSize of coq_Z
+| TkStep of coq_Z * coq_Z * coq_N list * coq_N list * coq_N list
+| TkDone of coq_Z * coq_N list * coq_N list * coq_N list
+| TkPre of coq_Z
+| TkPause of bool
+
+type sevent =
+| SeResize of coq_Z
+| SeStart of bool * coq_Z
+| SeTick of tick
+| SePromptOpen
+| SePromptClose
+| SeEnd
+
 (** val ell_loop :
     (coq_N -> nat) -> coq_N list -> coq_Z -> coq_Z -> coq_N list * coq_Z **)
 
@@ -499,6 +516,72 @@ let wr_bytes = function
           else fmt_subst progress_redraw_cr_fmt (text :: []))
 | WPanic -> None
 
+type session = { s_cols : coq_Z; s_bar : pstate option }
+
+(** val sess_init : coq_Z -> session **)
+
+let sess_init cols =
+  { s_cols = cols; s_bar = None }
+
+type swr =
+| SwBar of wr
+| SwShow
+
+(** val tick_op : tick -> op **)
+
+let tick_op = function
+| TkNum n -> OpNum n
+| TkName s -> OpName s
+| TkSize z -> OpSize z
+| TkStep (z, now, t0, s, e) -> OpStep (z, now, t0, s, e)
+| TkDone (now, t0, s, e) -> OpDone (now, t0, s, e)
+| TkPre z -> OpPre z
+| TkPause b -> OpPause b
+
+(** val sess_on_bar :
+    (coq_N -> nat) -> (coq_N list -> nat) -> (coq_Z -> coq_Z -> coq_Z ->
+    coq_Z) -> bool -> session -> op -> session * swr list **)
+
+let sess_on_bar w sw mdr clamped s o =
+  match s.s_bar with
+  | Some b ->
+    let (b', out) = apply_op w sw mdr clamped o b in
+    ({ s_cols = s.s_cols; s_bar = (Some b') }, (map (fun x -> SwBar x) out))
+  | None -> (s, [])
+
+(** val sess_step :
+    (coq_N -> nat) -> (coq_N list -> nat) -> (coq_Z -> coq_Z -> coq_Z ->
+    coq_Z) -> bool -> sevent -> session -> session * swr list **)
+
+let sess_step w sw mdr clamped e s =
+  match e with
+  | SeResize c ->
+    sess_on_bar w sw mdr clamped { s_cols = c; s_bar = s.s_bar } (OpCols c)
+  | SeStart (quiet, pane) ->
+    if quiet
+    then ({ s_cols = s.s_cols; s_bar = None }, [])
+    else let pane' =
+           if Z.ltb s.s_cols pane then progress_pane_ignored else pane
+         in
+         ({ s_cols = s.s_cols; s_bar = (Some (new_bar s.s_cols pane')) }, [])
+  | SeTick t -> sess_on_bar w sw mdr clamped s (tick_op t)
+  | SePromptOpen -> sess_on_bar w sw mdr clamped s (OpPause true)
+  | SePromptClose ->
+    let (s1, o1) = sess_on_bar w sw mdr clamped s (OpCols s.s_cols) in
+    let (s2, o2) = sess_on_bar w sw mdr clamped s1 (OpPause false) in
+    (s2, (app o1 o2))
+  | SeEnd ->
+    ({ s_cols = s.s_cols; s_bar = None },
+      (match s.s_bar with
+       | Some _ -> SwShow :: []
+       | None -> []))
+
+(** val swr_bytes : swr -> coq_N list option **)
+
+let swr_bytes = function
+| SwBar y -> wr_bytes y
+| SwShow -> Some progress_show_cursor
+
 (** val progress_bar :
     (coq_Z -> coq_Z -> coq_Z -> coq_Z) -> coq_Z -> coq_Z -> coq_Z -> bres **)
 
@@ -530,3 +613,10 @@ let run_cur w sw mdr =
 
 let pct_text_cur mdr =
   pct_text mdr progress_clamped
+
+(** val sess_step_cur :
+    (coq_N -> nat) -> (coq_N list -> nat) -> (coq_Z -> coq_Z -> coq_Z ->
+    coq_Z) -> sevent -> session -> session * swr list **)
+
+let sess_step_cur w sw mdr =
+  sess_step w sw mdr progress_clamped
